@@ -294,6 +294,7 @@ impl Session {
                 }
             }
         }
+        crate::suite::KEY_OFFSET.with(|c| c.set(call.get("off").and_then(|v| v.parse().ok()).unwrap_or(0)));
         let args = Args { call, bytes };
         let mut extra = Vec::new();
         LAST_PANIC.with(|p| *p.borrow_mut() = None);
